@@ -165,7 +165,11 @@ PROPS = {
         ],
         trusted_base=["hfile.c/hfiledd.c are compiled into the engine with -fwrapv so that int32 sums have two's-complement results (what wrap32 models); the rest of the library is the ASan/UBSan build",
                       "linked-block conversion (HLconvert) and the linked-block logical length are exercised by implementation oracles only, not modelled",
-                      "Vgroup member limit: H4.Props.C08.vg_full_insert_fails (cited, not re-proved)"],
+                      "Vgroup member limit: H4.Props.C08.vg_full_insert_fails (cited, not re-proved)",
+                      "reference numbers across maxref = 65535 (H4.Limits.RefSt): the model is told which descriptors an object API creates (VSattach: DFTAG_VS at once, DFTAG_VH at VSdetach; "
+                      "Vattach: DFTAG_VG at Vdetach) and is compared with the DD list at refstate / refreopen; GRcreate and SDcreate are driven at exhaustion only (answer 0 = refused), "
+                      "what they write below exhaustion is covered by the implementation oracles only",
+                      "HTIfind_dd is compiled without sanitizer instrumentation inside engine limits (an exhausted Hnewref search is 2*10^9 steps); engine dd (C12) runs it instrumented"],
         assumptions=["single-threaded; one H-level file per case; a DD block has at most 32767 descriptors (int16 ndds)",
                      "the allocation model covers Hstartwrite of new elements, appending Hwrite on the last element of the file, in-place Hwrite, Hsync and close/reopen; every other allocation goes through HPgetdiskblock too but is not replayed on the model"],
     ),
